@@ -103,6 +103,7 @@ int main() {
         auto w = vh::words(line);
         if (w.empty()) continue;
         if (w[0] == "case") { reset_all(); std::cout << line << "\n"; continue; }
+        if (w.size() == 1 && w[0] == "quiet") { std::cout << "P quiet\n"; continue; }   // (the model drops its B lines)
         g_tr.clear();
         bool ok = false, ret = true;
         uint64_t a = 0, b = 0; bool f1, f2, f3, f4;
